@@ -266,7 +266,9 @@ def step (s : DState) (line : String) : DState × String :=
       ({ s with cprog := prog }, "conc.thread")
     | _, _ => bad s line
   | "conc.run" :: rest =>
-    let schedStr := joinWith " " rest
+    -- a trailing `h` tells the harness to run worker 0 on the thread that built the level and the generator;
+    -- thread identity does not exist in the model
+    let schedStr := joinWith " " (rest.filter (· != "h"))
     match (if schedStr.isEmpty then some [] else (schedStr.splitOn ",").mapM String.toNat?) with
     | some sched =>
       let sh : Conc.Shared := { price := s.lvl.price, vis := s.lvl.vis, hid := s.lvl.hid, cnt := s.lvl.cnt,
@@ -466,6 +468,7 @@ def step (s : DState) (line : String) : DState × String :=
       | "restored" :: "err" :: _ => "J C09 ok"
       | _ => "J C09 bad " ++ joinWith " " out)
   | ["read", _] => (s, "read")
+  | ["quiet", _] => (s, "quiet")   -- harness-only switch (sparse observation); nothing changes in the model
   | ["state"] => (s, "state " ++ showState s.lvl)
   | [""] => (s, "")
   | _ => bad s line
